@@ -32,9 +32,27 @@ def run(ctx):
 
     # (T) the code's tables, dumped through the verif accessor, against the formulas; (R) vectors
     ctx.harness(["c05-tables", os.path.join(d, "sm4tables.json")])
+    # search: (key, block) pairs that put a half-word 0000 / ffff into the S-box layer of some round (key schedule or encryption)
+    nfind = 12000 if thorough else 4000
+    with open(os.path.join(d, "find.cfg"), "w") as f:
+        f.write('SPECIFICATION Spec\nCONSTANTS\n TablesFile = "sm4tables.json"\n BitStep = 1\n FillStep = 1\n NLcg = 0\n FindLcg = %d\n ExtraLcg = {}\n' % nfind)
+    r = ctx.tlc("SM4Tab", "find.cfg", workers=ncpu, timeout=3000)
+    hw = markers(r["out"], "HW")
+    khits = sorted(x["s"] for x in hw if x["khit"])
+    ehits = sorted(x["s"] for x in hw if x["ehit"])
+    kf = sorted(x["s"] for x in hw if x["khitf"])
+    ef = sorted(x["s"] for x in hw if x["ehitf"])
+    lim = 40 if thorough else 6
+    extra = sorted(set(khits[:lim] + ehits[:lim] + kf[:lim] + ef[:lim]))
+    if not kf or not ef:
+        raise Infra("half-word search found no ffff half (key schedule %d, rounds %d)" % (len(kf), len(ef)))
+    ctx.log("half-word search over %d (key, block) pairs: %d hit the key schedule, %d the encryption rounds; %d added as vectors" % (len(hw), len(khits), len(ehits), len(extra)))
+    if not khits or not ehits:
+        raise Infra("half-word search found nothing")
+    ctx.cov["halfword_edge_pairs"] = len(extra)
     with open(os.path.join(d, "tab.cfg"), "w") as f:
-        f.write('SPECIFICATION Spec\nCONSTANTS\n TablesFile = "sm4tables.json"\n BitStep = %d\n FillStep = %d\n NLcg = %d\n'
-                % ((1, 1, 1500) if thorough else (2, 3, 120)))
+        f.write('SPECIFICATION Spec\nCONSTANTS\n TablesFile = "sm4tables.json"\n BitStep = %d\n FillStep = %d\n NLcg = %d\n FindLcg = 0\n ExtraLcg = {%s}\n'
+                % ((1, 1, 1500, ", ".join(map(str, extra))) if thorough else (2, 3, 120, ", ".join(map(str, extra)))))
     r = ctx.tlc("SM4Tab", "tab.cfg", workers=ncpu, timeout=3000)
     okt = markers(r["out"], "TABOK")
     bad = markers(r["out"], "TABBAD")
